@@ -387,7 +387,8 @@ func (g *pg) stmt(depth int, inLoop bool, ind string) string {
 		}
 		return pre + ind + "for " + init + "; " + cond + "; " + loop + " " + body + "\n"
 	case 4, 5:
-		its := []string{"[1, 2, 3]", `"aé"`, `{"a": 1}`, "[]", `""`, "l", "s", g.pick(g.keys), `[[1], "s", nil]`}
+		// (strings cut inside a character, and point values that are not valid UTF-8, among the iterables)
+		its := []string{"[1, 2, 3]", `"aé"`, `{"a": 1}`, "[]", `""`, "l", "s", g.pick(g.keys), `[[1], "s", nil]`, `"aé"[0:2]`, `"日志"[0:4]`, `"日志"[1:]`, "message", "t1"}
 		if !g.noNestedUse && g.rng.Intn(4) == 0 {
 			// maps with several keys: Go's iteration order is unspecified, so the body only has
 			// order-insensitive effects (commutative updates, per-key writes) and a fresh loop variable
@@ -443,10 +444,10 @@ func stdPoint(rng *rand.Rand) pointSpec {
 		pt.Fields = append(pt.Fields, fvals[rng.Intn(len(fvals))])
 	}
 	if rng.Intn(3) != 0 {
-		pt.Fields = append(pt.Fields, fieldSpec{"message", "str", []string{"hello world", "", "héllo", `{"a": 1}`}[rng.Intn(4)]})
+		pt.Fields = append(pt.Fields, fieldSpec{"message", "str", []string{"hello world", "", "héllo", `{"a": 1}`, "caf\xc3", "web-\xff1", "\xe6\x97"}[rng.Intn(7)]})
 	}
 	if rng.Intn(3) != 0 {
-		pt.Tags = append(pt.Tags, [2]string{"t1", []string{"tv", "", "7"}[rng.Intn(3)]})
+		pt.Tags = append(pt.Tags, [2]string{"t1", []string{"tv", "", "7", "t\xc3"}[rng.Intn(4)]})
 	}
 	if rng.Intn(4) == 0 {
 		pt.Fields = append(pt.Fields, fieldSpec{"ts", "str", []string{"171113 14:14:20", "2021/02/27 - 14:14:20", "2021-03-15T00:08:10Z", "junk", "1610358231887"}[rng.Intn(5)]})
